@@ -51,6 +51,7 @@ def configs(tier, seed):
             if n >= 2 * deg + 2 - 1:
                 cfgs.append(dict(name=f"ctor n={n} degree={deg}", kind="ctor", n=n, degree=deg))
     cfgs.append(dict(name="ctor non-numeric", kind="ctor_bad"))
+    cfgs.append(dict(name="close knots (no separation assumed)", kind="close"))
     if tier == "quick":
         famy = fam.pattern_family(range(0, 3), 2, seed=seed)
     else:
@@ -138,6 +139,25 @@ def body(env, cfg):
                 raise Unexpected(f"KnotVector({bad!r}) raised {type(e).__name__} instead of ValueError")
             raise Unexpected(f"KnotVector({bad!r}) was accepted")
         env.holds("malformed data rejected with ValueError", True)
+        return
+
+    if cfg["kind"] == "close":
+        # the separation assumption dropped: distinct knots may be arbitrarily close (known finding F5 lives here)
+        t = env.reals("t", 3)
+        env.assume(t[0] < t[1])
+        env.assume(t[1] < t[2])
+        u = env.real("u")
+        env.assume((t[0] <= u) & (u <= t[2]))
+        ref = KV(t, [2, 1, 2])
+        kvobj = KnotVector(list(ref.U))
+        check_state(env, kvobj, ref, "close knots")
+        d = ref.locate(u)
+        env.holds("close knots: span(u)", kvobj.span(u) == ref.span_of(d))
+        exp = 0
+        for v_, m in zip(t, [2, 1, 2]):
+            if bool(u == v_):
+                exp = m
+        env.holds("close knots: mult(u) = number of occurrences", kvobj.mult(u) == exp)
         return
 
     if cfg["kind"] == "ctor":
